@@ -88,6 +88,45 @@ def norm_self(s):
     return s
 
 
+def alpha_map(st):
+    """generic parameters of an impl's self type (identifiers that are not part of a path and not primitives), in order of first occurrence,
+    mapped to positional names: the impl for (A, B) and the impl for (B, C) are the same impl"""
+    out = {}
+    for m in re.finditer(r"(?<![:\w])([A-Z][A-Za-z0-9_]*)(?![:\w])", st or ""):
+        nm = m.group(1)
+        if nm not in out and nm not in ("Self",):
+            out[nm] = "P%d" % len(out)
+    return out
+
+
+def alpha_str(s, mp):
+    if not mp or not isinstance(s, str):
+        return s
+    return re.sub(r"(?<![:\w])([A-Z][A-Za-z0-9_]*)(?![:\w])", lambda m: mp.get(m.group(1), m.group(1)), s)
+
+
+def alpha_term(t, mp):
+    if isinstance(t, str):
+        return alpha_str(t, mp)
+    if isinstance(t, tuple):
+        return tuple(alpha_term(x, mp) for x in t)
+    if isinstance(t, list):
+        return [alpha_term(x, mp) for x in t]
+    return t
+
+
+_ORACLE_ALPHA = {}
+
+
+def oracle_lookup(st):
+    if not _ORACLE_ALPHA:
+        for k, v in ORACLE.items():
+            mp = alpha_map(k)
+            _ORACLE_ALPHA[alpha_str(k, mp)] = alpha_term(v, mp)
+    mp = alpha_map(st)
+    return _ORACLE_ALPHA.get(alpha_str(st, mp)), mp
+
+
 def check_builtins(run_, F, config, rule="B"):
     sc = F.crate("postcard_schema")
     n = 0
@@ -99,8 +138,8 @@ def check_builtins(run_, F, config, rule="B"):
         st = norm_self(c.get("impl_self"))
         key = "%s%s" % (st, "" if config == "A" else " [%s]" % config)
         site = "%s:%s" % (c.get("file"), c.get("line"))
-        got = drop_type_names(schema_term(c["hir"]))
-        want = ORACLE.get(st)
+        want, mp = oracle_lookup(st)
+        got = alpha_term(drop_type_names(schema_term(c["hir"], F)), mp)
         n += 1
         if want is None:
             run_.bad(rule, key, "impl Schema for %s has no row in the data-model oracle table (new impl: add its serde shape)" % st, site, found=repr(got))
